@@ -5,7 +5,31 @@
 #include <stdarg.h>
 #include "verif.h"
 #include "express/scope.h"   /* first inclusion must be the rewritten copy (union -> struct), see unit.json */
-static int verif_fprintf(FILE *f, const char *fmt, ...) { (void)f; (void)fmt; return 0; }
+/* fprintf: the text is discarded; the value-writing statements of the generated select writers are counted by their format */
+static int g_f_writereal, g_f_plain, g_f_ref, g_f_embedded, g_f_sel;
+/* the statement kinds are told apart by a few characters at fixed positions of the format (every index is read only after the ones before
+ * it were seen to be non-NUL); all of them start with eight blanks */
+#define F(i, c) (fmt[i] == (c))
+static int verif_fprintf(FILE *f, const char *fmt, ...)
+{
+    (void)f;
+    if (!(F(0,' ') && F(1,' ') && F(2,' ') && F(3,' ') && F(4,' ') && F(5,' ') && F(6,' ') && F(7,' '))) return 0;
+    if (F(8,'W') && F(9,'r') && F(10,'i') && F(11,'t') && F(12,'e') && F(13,'R')) { g_f_writereal++; return 0; }          /* "        WriteReal(_%s,out);" */
+    if (F(8,'o') && F(9,'u') && F(10,'t') && F(11,' ') && F(12,'<') && F(13,'<') && F(14,' ')) {
+        if (F(15,' ') && F(16,'_')) { g_f_plain++; return 0; }                                                                   /* "        out <<  _%s;" */
+        if (F(15,'t') && F(16,'m') && F(17,'p') && F(18,' ') && F(19,'<') && F(20,'<') && F(21,' ') && F(22,'"') && F(23,'(') && F(24,'"') && F(25,' ') && F(26,'<') && F(27,'<') && F(28,' ') && F(29,'_')) { g_f_plain++; return 0; }   /* out << tmp << "(" << _%s << ")"; */
+        return 0;
+    }
+    if (F(8,'_') && F(9,'%') && F(10,'s')) {
+        if (F(11,' ') && F(12,'-') && F(13,'>') && F(14,' ') && F(15,'S') && F(16,'T') && F(17,'E') && F(18,'P') && F(19,'w') && F(20,'r') && F(21,'i') && F(22,'t') && F(23,'e') && F(24,'_') && F(25,'r')) { g_f_ref++; return 0; }
+        if (F(11,'.') && F(12,'S') && F(13,'T') && F(14,'E') && F(15,'P') && F(16,'w') && F(17,'r') && F(18,'i') && F(19,'t') && F(20,'e')) {
+            if (F(21,'_') && F(22,'v')) { g_f_sel++; return 0; }                                                                 /* _%s.STEPwrite_verbose (out, currSch); */
+            if (F(21,' ') && F(22,'(') && F(23,'o') && F(24,'u') && F(25,'t')) { if (F(26,')')) g_f_embedded++; else if (F(26,',')) g_f_sel++; return 0; }
+        }
+    }
+    return 0;
+}
+#undef F
 #define fprintf verif_fprintf
 /* strncpy model (ISO C, assumed): destination must hold n bytes; the source string (or its first n bytes) is copied; zero padding not modelled */
 static char *verif_strncpy(char *d, const char *s, size_t n)
@@ -30,6 +54,14 @@ const char *SelectName(const char *n) { (void)n; return g_nm; }
 const char *TypeDescriptorName(Type t) { (void)t; return g_nm; }
 int isAggregateType(const Type t) { (void)t; return 0; }
 const char *StrToUpper(const char *w) { return w; }   /* name helper (classes_misc.c) */
+const char *StrToLower(const char *w) { return w; }
+const char *FundamentalType(const Type t, int r) { (void)t; (void)r; return g_nm; }
+const char *TYPEget_ctype(const Type t) { (void)t; return g_nm; }
+/* list primitives of libexpress (models): a fresh empty list; appending links the item behind the last one (two items at most here) */
+static struct Linked_List_ g_l[4]; static struct Link_ g_lm[4], g_ll[8]; static int g_nl, g_nk;
+Linked_List LISTcreate(void) { Linked_List l = &g_l[g_nl & 3]; l->mark = &g_lm[g_nl & 3]; l->mark->next = l->mark->prev = l->mark; g_nl++; return l; }
+void *LISTadd_last(Linked_List l, void *item) { Link k = &g_ll[g_nk & 7]; g_nk++; k->data = item; k->next = l->mark; k->prev = l->mark->prev; l->mark->prev->next = k; l->mark->prev = k; return item; }
+void LISTfree(Linked_List l) { (void)l; }
 
 /* C17 (generator side, selects): a select gets its own files exactly once iff it is not a rename;
  * C06/C12: the mark left on a processed select stays valid memory, so that a later call for the same type
@@ -55,4 +87,27 @@ void h_TYPEselect_print(void)
     /* visited again (as an item of another select): nothing more is generated and the mark is read from live memory */
     TYPEselect_print(&ts, &files, &schema);
     __CPROVER_assert(g_typeprint_calls == (c17_has_own_files(select_, in_renamed != 0) ? 1 : 0), "C17 a select visited again is not generated twice");
+}
+
+/* C09 / C01 (generated code): the two writers that exp2cxx prints for every select (STEPwrite_content and STEPwrite_verbose) render a
+ * REAL or NUMBER member through WriteReal - the Part 21 real form, decimal point and upper-case E -, an INTEGER member as a plain
+ * integer, an entity member as a reference, and embedded values (STRING, BINARY, enumerations, LOGICAL, BOOLEAN) through their own writer */
+void h_select_part21(void)
+{
+    IN(int, in_kind);
+    static const int kinds[] = { integer_, real_, number_, string_, binary_, boolean_, logical_, enumeration_, entity_, select_ };
+    __CPROVER_assume(in_kind >= 0 && in_kind < 10);
+    static struct Scope_ ts, item; static struct TypeHead_ tt, ith; static struct TypeBody_ tb, itb; static FILE fobj;
+    static struct Linked_List_ lst; static struct Link_ mark, l1; static char nm[2] = "s";
+    ts.u.type = &tt; tt.body = &tb; tb.type = select_; tt.head = 0; ts.symbol.name = nm;
+    item.u.type = &ith; ith.body = &itb; itb.type = (enum type_enum)kinds[in_kind]; item.symbol.name = nm; ith.head = 0;
+    lst.mark = &mark; mark.next = &l1; mark.prev = &l1; l1.next = &mark; l1.prev = &mark; l1.data = &item; tb.list = &lst;
+    g_f_writereal = g_f_plain = g_f_ref = g_f_embedded = g_f_sel = 0;
+    TYPEselect_lib_part21(&ts, &fobj);
+    int k = kinds[in_kind];
+    if (k == real_ || k == number_) __CPROVER_assert(g_f_writereal == 2 && g_f_plain == 0, "C09 a REAL or NUMBER member of a select is written through WriteReal by both generated writers (never by the stream's default number format)");
+    else if (k == integer_) __CPROVER_assert(g_f_plain == 2 && g_f_writereal == 0, "C09 an INTEGER member of a select is written as a plain integer by both generated writers");
+    else if (k == entity_) __CPROVER_assert(g_f_ref == 2 && g_f_writereal == 0 && g_f_plain == 0, "C01 an entity member of a select is written as a reference");
+    else if (k == select_) __CPROVER_assert(g_f_sel == 2 && g_f_writereal == 0 && g_f_plain == 0, "C01 a select member of a select is written by its own writers, with the schema");
+    else __CPROVER_assert(g_f_embedded == 2 && g_f_writereal == 0 && g_f_plain == 0, "C01 an embedded member (STRING, BINARY, BOOLEAN, LOGICAL, enumeration) is written by its own writer");
 }
